@@ -104,6 +104,9 @@ def cases(tier, seed):
     for k in KINDS:
         for rep in (1, 2):
             yield ['kind', k, rep]
+        # the same with test case objects that are falsy
+        yield ['kind', k, 'len']
+        yield ['kind', k, 'bool']
     yield ['import_error', None, None]
     yield ['two_classes_subtests', None, None]
     # --xml together with --buffer: what a failing test wrote before it failed
@@ -501,11 +504,15 @@ def run_case(case):
         why = '%d-character %s (four suites, same head / same tail)' % (b, {'cls': 'class names', 'dname': 'doctest names', 'dfile': 'doctest file paths'}[a])
         res, files = run_xml(spec)
     elif kind == 'kind':
-        rep = b
+        falsyt = b if isinstance(b, str) else None
+        rep = 1 if falsyt else b
         spec = {'layers': [{'n': 'A', 'b': [], 'k': 'c', 'h': ['setUp', 'tearDown']}],
                 'tests': [{'n': 'q0', 'l': None, 's': 'pass'}, {'n': 'q1', 'l': 'A', 's': a},
                           {'n': 'q2', 'l': 'A', 's': 'pass'}]}
-        why = 'outcome %s repeat %d' % (a, rep)
+        if falsyt:
+            for t in spec['tests']:
+                t['falsyt'] = falsyt
+        why = 'outcome %s repeat %d%s' % (a, rep, ' (falsy test case objects: %s)' % falsyt if falsyt else '')
         res, files = run_xml(spec, ['--repeat', str(rep)] if rep > 1 else [])
     else:
         rep = 1
